@@ -559,9 +559,17 @@ func (db *RockDB) HClear(ts int64, hkey []byte) (int64, error) {
 		defer tableIndexes.Unlock()
 	}
 
-	hlen, err := db.HLen(hkey)
+	// the length must be decided with the timestamp of the raft entry as the deletion below is,
+	// not with the wall clock (HLen): replicas apply the same entry at different times
+	oldh, expired, err := db.hHeaderMeta(ts, hkey, false)
 	if err != nil {
 		return 0, err
+	}
+	var hlen int64
+	if !expired {
+		if hlen, err = Int64(oldh.UserData, nil); err != nil {
+			return 0, err
+		}
 	}
 	if hlen == 0 {
 		return 0, nil
